@@ -175,3 +175,40 @@ class Armed:
             if r:
                 return r
         return None
+
+
+@job('armed_limit', props=['C18', 'C15'], function='bycycle.utils.dataframes.limit_df')
+class ArmedLimit:
+    chunk = 4
+
+    def bound(self, tier):
+        return ('the limit_df contract evaluated concretely on real calls: corpus tables (both centrings, both burst methods) x '
+                'windows with either limit absent, on and off the sample grid, keep-all windows and empty windows x reset_indices')
+
+    def gen(self, tier, seed):
+        for fam in FAMILIES:
+            for s in range(1 if tier == 'quick' else 3):
+                for centre in ('peak', 'trough'):
+                    yield dict(family=fam, seed=seed * 10 + s, centre=centre, method='cycles' if (s + len(fam)) % 2 else 'amp')
+
+    def nontrivial(self, c):
+        return True
+
+    def run(self, c):
+        from bycycle.features import compute_features
+        from bycycle.utils.dataframes import limit_df
+        sig = make_signal(c['family'], c['seed'], n=1500)
+        fs, fr = 500.0, (7.0, 13.0)
+        df = compute_features(sig, fs, fr, center_extrema=c['centre'], burst_method=c['method'])
+        side = 'trough' if c['centre'] == 'peak' else 'peak'
+        first, last = int(df['sample_last_' + side].values[0]), int(df['sample_next_' + side].values[-1])
+        mid = int(df['sample_next_' + side].values[len(df) // 2])
+        wins = [(None, None), (0.4, None), (None, 1.9), (0.4, 1.9), (0.5003, 2.0007), (first / fs, last / fs),
+                (0.002, None), (mid / fs, mid / fs), (mid / fs, None), (None, mid / fs), (2.9, 2.95), (0.0, 0.0)]
+        for start, stop in wins:
+            for reset in (True, False):
+                r = armed_call('bycycle.utils.dataframes.limit_df', limit_df,
+                               dict(df=df, fs=fs, start=start, stop=stop, reset_indices=reset))
+                if r:
+                    return 'start=%r stop=%r reset=%r: %s' % (start, stop, reset, r)
+        return None
